@@ -121,7 +121,7 @@ check "(a) exit status 0" test "$A_RC1" -eq 0
 check "(a) indices are sequential from 0" sequential "$T/a.log1"
 for pat in \
     "^[0-9]+ fopen path=$W/conf mode=r = [0-9]+\$" \
-    "^[0-9]+ opendir path=$W/src/new = [0-9]+\$" \
+    "^[0-9]+ opendir path=$W/src/new cloexec=1 = [0-9]+\$" \
     "^[0-9]+ readdir fd=[0-9]+ = 1\\.host\$" \
     "^[0-9]+ readdir fd=[0-9]+ = END\$" \
     "^[0-9]+ openat dirfd=[0-9]+ dir=$W/src/new path=1\\.host flags=O_RDONLY\\|O_CLOEXEC = [0-9]+\$" \
